@@ -12,6 +12,8 @@ package server
 
 //@ spec writeAllowed(h ref) bool
 //@ spec handlerInv(h ref, ctx ref) bool
+// noReadFile(ctx): the connection has no open read file (defined by the handler package)
+//@ spec noReadFile(ctx ref) bool
 //@ spec u64(x int) int = x >= 0 ? x : x + 18446744073709551616
 //@ spec gbe16(d int, p int) int = d[p] * 256 + d[p + 1]
 //@ spec gbe32(d int, p int) int = d[p] * 16777216 + d[p + 1] * 65536 + d[p + 2] * 256 + d[p + 3]
@@ -52,6 +54,7 @@ package server
 //@   modifies ctx.State, fopen, fpos, limbase, iofaults
 //@   ensures iofaults >= old(iofaults) && handlerInv(recv, ctx) && wireUntouched(ctx.rd.Reader) && fsw == old(fsw)
 //@   ensures err == nil ==> fi != nil
+//@   ensures[C03] err != nil ==> noReadFile(ctx) @a-failed-open-leaves-no-open-read-file
 //@ func Handler.HandleCloseFile params(ctx)
 //@   tags C03,C05
 //@   requires recv != nil && wfCtx(ctx) && handlerInv(recv, ctx)
